@@ -138,6 +138,10 @@ func main() {
 	case "replay":
 		runtime.GOMAXPROCS(1)
 		replayMain(fs, os.Args[2:])
+	case "mkfixtures":
+		mkfixturesMain(os.Args[2:])
+	case "mkkeys":
+		mkkeysMain(os.Args[2:])
 	case "selftest":
 		selftestMain(fs, os.Args[2:])
 	default:
